@@ -210,6 +210,7 @@ package stage
 //@   before call (*Stage).fromWait assert order-dropped-only-on-loop: called((*Stage).detectWaitLoop) && len(lastret((*Stage).detectWaitLoop, 0)) > 0 && arg1 == lastarg((*Stage).detectWaitLoop, 1)
 //@   before go (*Stage).finalizeQueue assert order-dropped-only-on-loop: called((*Stage).fromWait) && called((*Stage).detectWaitLoop) && len(lastret((*Stage).detectWaitLoop, 0)) > 0
 //@   before go (*Stage).finalizeQueue assert releases-validated-only: f != nil && f.state == stateValidated && arg1 == f
+//@   before go (*Stage).finalizeQueue assert releases-the-version-in-the-cache: called((*Stage).fromCache) && arg1 == lastret((*Stage).fromCache, 0) && arg1 != nil
 
 // ---------------------------------------------------------------- staging clean-up (C20)
 
